@@ -70,6 +70,9 @@ BufrAF  *bufr_create_af( const int *blens, int count )
       }
 
    af = (BufrAF *)malloc(sizeof(BufrAF));
+#ifdef LIBECBUFR_VERIF
+   bufr_verif_live[BUFR_VK_AF]++;
+#endif
    af->bits        = 0;
    af->nbits       = nbits;
    af->count       = count;
@@ -141,6 +144,9 @@ void bufr_free_af( BufrAF *af )
    af->count =  0;
    af->nbits = 0;
    free( af );
+#ifdef LIBECBUFR_VERIF
+   bufr_verif_live[BUFR_VK_AF]--;
+#endif
    }
 
 /**
@@ -203,6 +209,9 @@ BufrAFD  *bufr_create_afd( const int *blens, int count )
       }
 
    afd = (BufrAFD *)malloc(sizeof(BufrAFD));
+#ifdef LIBECBUFR_VERIF
+   bufr_verif_live[BUFR_VK_AFD]++;
+#endif
    afd->count       = count;
    afd->defs = (AF_Definition *)malloc( count * sizeof(AF_Definition));
 
@@ -266,6 +275,9 @@ void bufr_free_afd( BufrAFD *afd )
       }
    afd->count =  0;
    free( afd );
+#ifdef LIBECBUFR_VERIF
+   bufr_verif_live[BUFR_VK_AFD]--;
+#endif
    }
 
 
